@@ -47,25 +47,35 @@ static void check_plan(Spec<D> const& si, Spec<D> const& so, bool const* which, 
   vf_assert(r_sign == sign, "sign as requested");
   vf_assert((r_flags & FFTW_PRESERVE_INPUT) != 0, "the plan preserves a distinct input");
 }
-static void draw_which(bool* w, std::array<bool, D>& a) {
+// the subset of transformed dimensions is a compile-time case split (one entry per mask, all 2^D masks): with a symbolic mask cbmc
+// explores libstdc++'s recursive __stable_partition_adaptive although the buffer path is always taken (measured: no verdict in 6 min).
+template<int MASK> static void set_which(bool* w, std::array<bool, D>& a) {
 #pragma unroll
-  for(int d = 0; d < D; ++d) { w[d] = vf_range(0, 1) != 0; a[static_cast<std::size_t>(d)] = w[d]; }
+  for(int d = 0; d < D; ++d) { w[d] = ((MASK >> d) & 1) != 0; a[static_cast<std::size_t>(d)] = w[d]; }
 }
-
-VF_HARNESS(dft_out_of_place) {
+template<int MASK> static void t_out_of_place() {
   Spec<D> si = arbitrary_spec<D>(1, 0, MEMSZ2); Spec<D> so = arbitrary_spec_like(si, 0, MEMSZ2);
-  auto const in = view_of<D, C>(si, g_in); auto out = view_of<D, C>(so, g_out);
-  bool w[D]; std::array<bool, D> which{}; draw_which(w, which);
+  auto const in = view_of<D, C>(si, g_in, MEMSZ2); auto out = view_of<D, C>(so, g_out, MEMSZ2);
+  bool w[D]; std::array<bool, D> which{}; set_which<MASK>(w, which);
   L dir = vf_range(0, 1);
   if(dir == 0) { fftw::dft_forward(which, in, out); } else { fftw::dft_backward(which, in, out); }
   check_plan(si, so, w, g_in + si.origin, g_out + so.origin, dir == 0 ? FFTW_FORWARD : FFTW_BACKWARD);
-  vf_reach("dft_out_of_place");
 }
-VF_HARNESS(dft_in_place) {
+template<int MASK> static void t_in_place() {
   Spec<D> si = arbitrary_spec<D>(1, 0, MEMSZ2);
-  auto io = view_of<D, C>(si, g_in);
-  bool w[D]; std::array<bool, D> which{}; draw_which(w, which);
+  auto io = view_of<D, C>(si, g_in, MEMSZ2);
+  bool w[D]; std::array<bool, D> which{}; set_which<MASK>(w, which);
   fftw::dft(which, io, fftw::forward);
   check_plan(si, si, w, g_in + si.origin, g_in + si.origin, FFTW_FORWARD);
-  vf_reach("dft_in_place");
 }
+#define E(M) VF_HARNESS(dft_out_of_place_m##M) { t_out_of_place<M>(); vf_reach("dft_out_of_place_m" #M); } VF_HARNESS(dft_in_place_m##M) { t_in_place<M>(); vf_reach("dft_in_place_m" #M); }
+E(0) E(1)
+#if DIM >= 2
+E(2) E(3)
+#endif
+#if DIM >= 3
+E(4) E(5) E(6) E(7)
+#endif
+#if DIM >= 4
+E(8) E(9) E(10) E(11) E(12) E(13) E(14) E(15)
+#endif
